@@ -374,7 +374,7 @@ def run(spec, mon):
     for i in range(n):
         gen = {"outcomes": outs, "p_tag": 0.5, "p_nonpass": 0.2, "max_features": 2, "max_items": 2, "max_steps": 2,
                "p_empty_examples": 0.0, "p_stepless": 0.0, "p_param_tag": 0.4}
-        case = RB.gen_case(rng, gen=gen, p_stop=0.25, p_dry=0.08, p_noskipped=0.3)
+        case = RB.gen_case(rng, gen=gen, p_stop=0.25, p_dry=0.08, p_noskipped=0.3, p_user_skip=0.15)
         run_program(lab, mon, case, rng, tier, sample=(i == 0 and spec["shard"] == 0))
 
 
